@@ -719,6 +719,10 @@ func main() {
 		childIncludes(*from, *stride, *seed, *tier)
 		return
 	}
+	if *ch == "tarfsopen" {
+		childTarfsOpen(*inFile, *from)
+		return
+	}
 	if *ch == "pkginfo" {
 		childPkginfo(*inFile, *from)
 		return
